@@ -20,9 +20,13 @@ Ints == { Zero, SmallInt(1), SmallInt(255), VInt(FALSE, <<0, 1>>), VInt(TRUE, <<
           VInt(FALSE, Rep(255, 8)), VInt(FALSE, <<0,0,0,0,0,0,0,0,1>>),             \* 2^64-1, 2^64
           VInt(FALSE, <<0,0,0,0,0,0,32>>), VInt(FALSE, <<1,0,0,0,0,0,32>>),         \* 2^53, 2^53+1
           VInt(FALSE, Rep(7, 9)), VInt(FALSE, Rep(255, 255)), VInt(TRUE, Rep(1, 256)), VInt(FALSE, Rep(9, 300)) }
-Floats == { VFloat(F15), VFloat(<<128,0,0,0,0,0,0,0>>), VFloat(<<0,0,0,0,0,0,0,0>>), VFloat(<<0,0,0,0,0,0,0,1>>),
+\* every float the FLOAT_EXT table knows a text for (decimal-boundary values and fixed pseudo-random bit patterns, see checks/tables.py)
+TabledFloats == { VFloat(ft.bits) : ft \in FloatTexts }
+BaseFloats == { VFloat(F15), VFloat(<<128,0,0,0,0,0,0,0>>), VFloat(<<0,0,0,0,0,0,0,0>>), VFloat(<<0,0,0,0,0,0,0,1>>),
             VFloat(<<127,239,255,255,255,255,255,255>>), VFloat(<<255,239,255,255,255,255,255,255>>),
             VFloat(<<67,64,0,0,0,0,0,0>>), VFloat(<<68,21,175,29,120,181,140,64>>), VFloat(<<0,16,0,0,0,0,0,0>>) }
+Floats == BaseFloats \cup TabledFloats
+ExtraFloats == TabledFloats \ BaseFloats
 Atoms == { A(<<>>), A(<<97>>), A(<<111,107>>), A(<<195,169>>), A(<<226,130,172>>), A(<<240,159,152,128>>),
            A(<<195,191,97>>), A(<<195,131,194,169>>), A(<<195,130,194,181,120>>), A(Rep(97, 255)), A(Rep(97, 256)), A(Rep(98, 127) \o <<195,169>>) }
           \cup (IF Heavy THEN {A(Rep(97, 65535))} ELSE {A(Rep(97, 1000))})
@@ -73,8 +77,8 @@ D2 == D1
       \cup { VList(<<a>>, b) : a \in Containers1, b \in {VNil, SmallInt(1)} }
       \cup { VMap(CanonMap(<< <<a, b>>, <<b, a>> >>)) : a \in Containers1, b \in {SmallInt(1)} }
       \cup { MkFun(<<a>>) : a \in Containers1 }
-      \cup { VTuple(<<l>>) : l \in Leaves } \cup { VList(<<l>>, VNil) : l \in Leaves \ WideIds }
-      \cup { VMap(<< <<l, l>> >>) : l \in Leaves \ WideIds }
+      \cup { VTuple(<<l>>) : l \in Leaves } \cup { VList(<<l>>, VNil) : l \in Leaves \ (WideIds \cup ExtraFloats) }
+      \cup { VMap(<< <<l, l>> >>) : l \in Leaves \ (WideIds \cup ExtraFloats) }
 \* ---- C10: identifiers in plain and node-local form, in every context that can contain them
 Hashes == { <<9,8,7,6,5,4,3,2>>, <<0,0,0,0,0,0,0,0>>, <<255,255,255,255,255,255,255,255>> }
 IdPlain == { Pid1, VPid(NodeU, <<255,255,255,255>>, <<0,0,0,0>>, <<1,2,3,4>>, <<>>), VPid(A(Rep(97, 256)), <<0,0,0,1>>, <<0,0,0,2>>, <<0,0,0,3>>, <<>>),
@@ -103,6 +107,12 @@ Twin(i) == IF i.loc = <<>> THEN [i EXCEPT !.loc = <<9,8,7,6,5,4,3,2>>] ELSE [i E
 OtherHash(h) == [k \in 1..Len(h) |-> IF k = Len(h) THEN (h[k] + 1) % 256 ELSE h[k]]
 Twins(i) == IF i.loc = <<>> THEN {Twin(i)} ELSE {Twin(i), [i EXCEPT !.loc = OtherHash(i.loc)]}
 
+\* a different logical identifier that agrees with i in all fields but one (must be told apart by ==, cmp, sets and as a map key)
+Bump(w) == [k \in 1..Len(w) |-> IF k = Len(w) THEN (w[k] + 1) % 256 ELSE w[k]]
+Variants(i) == CASE i.k = "pid" -> {[i EXCEPT !.creation = Bump(@)], [i EXCEPT !.serial = Bump(@)], [i EXCEPT !.id = Bump(@)]}
+                 [] i.k = "port" -> {[i EXCEPT !.creation = Bump(@)], [i EXCEPT !.id = Bump(@)]}
+                 [] i.k = "ref" -> {[i EXCEPT !.creation = Bump(@)]} \cup (IF Len(i.words) > 0 THEN {[i EXCEPT !.words[Len(i.words)] = Bump(@)]} ELSE {})
+                 [] OTHER -> {}
 \* values the format cannot express (C01: encoding must report an error, not truncate a length)
 Unencodable == { A(Rep(97, 65536)), VTuple(<<SmallInt(1), A(Rep(97, 65536))>>),
                  VRef(Node1, <<0,0,0,1>>, [i \in 1..65536 |-> <<0,0,0,1>>], <<>>),
